@@ -9,6 +9,7 @@ import (
 	"fmt"
 	"math/big"
 	"sort"
+	"strings"
 	"testing"
 
 	"github.com/nspcc-dev/neo-go/pkg/core/state"
@@ -202,6 +203,37 @@ func (e *balEngine) run() {
 	e.users = append(e.users, balActor{name: "empty", addr: ek.GetScriptHash().BytesBE(), key: ek})
 	e.stranger = DetKey("bal/stranger")
 	e.r.Tracef("world n=%d alphabet=%d-of-%d committee=%d-of-%d allowNeg=%v allowBad=%v", n, n*2/3+1, n, n/2+1, n, e.allowNeg, e.allowBad)
+	e.r.Sweep = func() []string {
+		var out []string
+		add := func(h util.Uint160, c, m string, args ...any) {
+			it, err := w.Read(h, m, args...)
+			var sb strings.Builder
+			if err != nil {
+				sb.WriteString("FAULT")
+			} else {
+				itemRepr(&sb, it, 0)
+			}
+			out = append(out, fmt.Sprintf("%s.%s(%x)=%s", c, m, args, sb.String()))
+		}
+		for _, u := range e.users {
+			add(e.bal, "balance", "balanceOf", u.addr)
+		}
+		for _, la := range e.lockAccs {
+			add(e.bal, "balance", "balanceOf", la)
+		}
+		for _, m := range []string{"totalSupply", "symbol", "decimals", "version"} {
+			add(e.bal, "balance", m)
+		}
+		for _, kv := range w.Scan(w.C["balance"].ID, []byte{'a'}) {
+			// lock metadata is not reachable through the API; it decides what the
+			// next tick returns, so it is part of what an upgrade must preserve
+			out = append(out, fmt.Sprintf("balance.account[%x]=%x", kv.K, kv.V))
+		}
+		for _, m := range []string{"epoch", "netmap", "netmapCandidates", "listConfig", "version"} {
+			add(e.nm, "netmap", m)
+		}
+		return out
+	}
 
 	// initial funding (part of the history: ordinary Alphabet mints)
 	var pending []*balTx
